@@ -158,6 +158,7 @@ pub static PROFILE: Profile = Profile {
     liveness: false,
     enumerate: None,
     extra: None,
+    borrow: &["C02", "C03", "C04", "C05", "C06", "C07", "C08", "C09", "C10", "C11", "C12", "C13", "C14", "C15", "C18", "C19"],
     assumptions: &[
         "states are 64-bit hash chains over (reducer id, action id): equality of hashes is taken as equality of histories",
         "exactly-once for accepted actions is claimed under BlockOnFull only (as the property says); under drop policies at-most-once and chain linking",
